@@ -39,12 +39,13 @@ class Record:
 
 
 class ClassRef:
-    def __init__(self, name, kind="class", bases=(), call=None, iter=None):
+    def __init__(self, name, kind="class", bases=(), call=None, iter=None, attrs=None):
         self.name = name
         self.kind = kind
         self.bases = tuple(bases)
         self.call = call      # optional python callable standing for the constructor
         self.iter = iter      # optional python callable producing the members (enum classes)
+        self.attrs = attrs or {}   # class attributes (enum members)
 
 
 class ModuleRef:
@@ -62,6 +63,27 @@ class Closure:
 
     def __call__(self, *args, **kwargs):
         return self.interp.call(self.node, list(args), kwargs, closure_env=self.env)
+
+
+class EagerGen(list):
+    """Result of calling a generator function: the body has been run eagerly, the yielded values are kept here.  It
+    behaves like a generator towards the evaluated program (next() / one-shot iteration through a cursor) and like
+    a plain list towards host code."""
+
+    def __init__(self, items=()):
+        super().__init__(items)
+        self._cursor = 0
+
+    def __next__(self):
+        if self._cursor >= len(self):
+            raise StopIteration
+        self._cursor += 1
+        return self[self._cursor - 1]
+
+    def rest(self):
+        out = list(self[self._cursor:])
+        self._cursor = len(self)
+        return out
 
 
 class _Return(Exception):
@@ -135,14 +157,37 @@ class Interp:
              closure_env: dict | None = None):
         kwargs = kwargs or {}
         a = fn.args
-        if a.vararg or a.kwarg or a.kwonlyargs or a.posonlyargs:
+        if a.posonlyargs:
             raise AnalysisError(f"{self.name}: unsupported signature of {getattr(fn, 'name', '<lambda>')}")
         names = [x.arg for x in a.args]
         env = dict(closure_env) if closure_env else {}
         env["__parent__"] = closure_env
         if len(args) > len(names):
-            raise Raised("TypeError", ("too many arguments",))
+            if not a.vararg:
+                raise Raised("TypeError", ("too many arguments",))
+            env[a.vararg.arg] = tuple(args[len(names):])
+            args = args[:len(names)]
+        elif a.vararg:
+            env[a.vararg.arg] = ()
+        kwargs = dict(kwargs)
+        for ko, kd in zip(a.kwonlyargs, a.kw_defaults):
+            if ko.arg in kwargs:
+                env[ko.arg] = kwargs.pop(ko.arg)
+            elif kd is not None:
+                env[ko.arg] = self.eval(kd, env)
+            else:
+                raise Raised("TypeError", (f"missing keyword-only argument {ko.arg}",))
+        if a.kwarg:
+            extra = {k: v for k, v in kwargs.items() if k not in names}
+            env[a.kwarg.arg] = extra
+            kwargs = {k: v for k, v in kwargs.items() if k in names}
+        else:
+            unknown = [k for k in kwargs if k not in names]
+            if unknown:
+                raise Raised("TypeError", (f"unexpected keyword argument {unknown[0]}",))
         for n, v in zip(names, args):
+            if n in kwargs:
+                raise Raised("TypeError", (f"multiple values for argument {n}",))
             env[n] = v
         defaults = a.defaults
         first_default = len(names) - len(defaults)
@@ -165,8 +210,8 @@ class Interp:
             try:
                 self.exec_block(fn.body, env)
             except _Return as r:
-                return env["__yields__"] if is_gen else r.v
-            return env["__yields__"] if is_gen else None
+                return EagerGen(env["__yields__"]) if is_gen else r.v
+            return EagerGen(env["__yields__"]) if is_gen else None
         finally:
             stack.pop()
 
@@ -381,7 +426,7 @@ class Interp:
         if name in HOST_TYPES:
             return HOST_TYPES[name]
         if name in ("isinstance", "issubclass", "hasattr", "len", "any", "all", "repr", "sorted", "min", "max",
-                    "enumerate", "zip", "range", "abs", "getattr", "filter", "map", "next"):
+                    "enumerate", "zip", "range", "abs", "getattr", "filter", "map", "next", "iter", "reversed", "sum"):
             return ("builtin", name)
         if name == "NotImplemented":
             return NotImplemented
@@ -397,6 +442,8 @@ class Interp:
     def iterate(self, v):
         if isinstance(v, ClassRef) and v.iter is not None:
             return list(v.iter())
+        if isinstance(v, EagerGen):
+            return v.rest()
         if isinstance(v, (list, tuple, str, dict, set, frozenset, range)):
             return list(v)
         if hasattr(v, "__iter__") and not isinstance(v, (Record, ClassRef, ModuleRef)):
@@ -417,14 +464,23 @@ class Interp:
     def e_Name(self, n, env):
         return self.lookup(n.id, env)
 
+    def _elts(self, elts, env):
+        out = []
+        for e in elts:
+            if isinstance(e, ast.Starred):
+                out.extend(self.iterate(self.eval(e.value, env)))
+            else:
+                out.append(self.eval(e, env))
+        return out
+
     def e_Tuple(self, n, env):
-        return tuple(self.eval(e, env) for e in n.elts)
+        return tuple(self._elts(n.elts, env))
 
     def e_List(self, n, env):
-        return [self.eval(e, env) for e in n.elts]
+        return self._elts(n.elts, env)
 
     def e_Set(self, n, env):
-        return set(self.eval(e, env) for e in n.elts)
+        return set(self._elts(n.elts, env))
 
     def e_Dict(self, n, env):
         out = {}
@@ -605,6 +661,8 @@ class Interp:
         if isinstance(obj, ClassRef):
             if a in ("__name__", "__qualname__"):
                 return obj.name
+            if a in obj.attrs:
+                return obj.attrs[a]
             raise AnalysisError(f"{self.name}: attribute {a} of class object")
         if isinstance(obj, ModuleRef):
             if a in obj.attrs:
@@ -837,6 +895,15 @@ class Interp:
             return list(zip(*[self.iterate(a) for a in args]))
         if name == "range":
             return list(range(*args))
+        if name == "iter" and len(args) == 1:
+            return iter(list(self.iterate(args[0])))
+        if name == "reversed" and len(args) == 1:
+            return list(reversed(list(self.iterate(args[0]))))
+        if name == "sum":
+            try:
+                return sum(list(self.iterate(args[0])), *args[1:])
+            except TypeError as e:
+                raise Raised("TypeError", e.args)
         if name == "next":
             try:
                 return next(*args)
